@@ -141,9 +141,28 @@ func (g *Gen) BlockEx(t *rapid.T, o *BlockOpts) (*types.Block, *payload.Confirm,
 	}
 	var proposalsUsed common.Fixed64
 	ts := 1600000000 + 120*h
+	lastSubject, lastKind := "", ""
 	for i := 0; i < n; i++ {
 		kind := g.drawKind(t)
+		delete(c28Force, g)
+		if lastSubject != "" && o.SameSubject[lastKind] && rapid.Bool().Draw(t, "companion") {
+			// a second transaction about the subject of the previous one
+			var ks []string
+			switch lastSubject[0] {
+			case 'v':
+				ks = []string{"voting", "voting", "returnvotes", "returnvotes", "stake", "renewvoting"}
+			case 'p':
+				ks = []string{"returndeposit2"}
+			case 'c':
+				ks = []string{"returncrdeposit2"}
+			}
+			if len(ks) > 0 {
+				kind = ks[rapid.IntRange(0, len(ks)-1).Draw(t, "companionkind")]
+				c28Force[g] = lastSubject
+			}
+		}
 		c := g.candidate(t, kind, spent)
+		delete(c28Force, g)
 		if c == nil {
 			g.Rejected[kind+"/na"]++
 			continue
@@ -188,6 +207,7 @@ func (g *Gen) BlockEx(t *rapid.T, o *BlockOpts) (*types.Block, *payload.Confirm,
 			continue
 		}
 		subjects[c.subject] = true
+		lastSubject, lastKind = c.subject, kind
 		for _, in := range c.tx.Inputs() {
 			spent[in.ReferKey()] = true
 		}
